@@ -221,31 +221,29 @@ impl Model<Asn<Unresolved>> {
         iter: &mut Peekable<T>,
         delimiter: char,
     ) -> Result<String, ErrorKind> {
-        iter.next_separator_eq_or_err(delimiter)?;
-        let token = iter.next_or_err()?;
-
-        let first_text = token.text().unwrap_or_default();
+        let opening = iter.next_if_separator_and_eq(delimiter)?;
         let mut string = String::from(delimiter);
-        string.push_str(first_text);
         let mut prev_loc = Location::at(
-            token.location().line(),
-            token.location().column() + first_text.chars().count(),
+            opening.location().line(),
+            opening.location().column() + 1,
         );
 
         loop {
-            match iter.next_or_err()? {
+            let token = iter.next_or_err()?;
+            // blanks are not tokens: they are the distance to the previous token, also
+            // right behind the opening and in front of the closing delimiter
+            if token.location().line() == prev_loc.line() {
+                for _ in prev_loc.column()..token.location().column() {
+                    string.push(' ');
+                }
+            }
+            match token {
                 t if t.eq_separator(delimiter) => break,
                 Token::Text(loc, str) => {
-                    for _ in prev_loc.column()..loc.column() {
-                        string.push(' ');
-                    }
                     string.push_str(&str);
                     prev_loc = Location::at(loc.line(), loc.column() + str.chars().count())
                 }
                 Token::Separator(loc, char) => {
-                    for _ in prev_loc.column()..loc.column() {
-                        string.push(' ');
-                    }
                     string.push(char);
                     prev_loc = Location::at(loc.line(), loc.column() + 1)
                 }
